@@ -29,16 +29,45 @@ Definition cf_break (a b : N) : bool :=
 Definition seam_ok (a b : N) : bool :=
   negb (is_prepend a) && negb (ws_joinable b) && cf_break a b.
 
-(** every word boundary of a word list is such a position *)
+(** every word boundary of a word list is such a position: the category-only condition
+    ([seam_safe_cf]: last code point of a word, first code point of the next one) *)
 Fixpoint seams_ok (W : list str) : bool :=
   match W with
   | w1 :: (w2 :: _) as R => seam_ok (last w1 32) (hd 32 w2) && seams_ok R
   | _ => true
   end.
+Definition seam_safe_cf (s : str) : bool := seams_ok (C11_Model.words s).
 
-(** [seam_safe s]: at every word boundary of [s] (last code point of a word, first code point
-    of the next one) *)
-Definition seam_safe (s : str) : bool := seams_ok (C11_Model.words s).
+(** ** cluster lists that re-segment to themselves (SeamStable as a decidable property)
+    [glued c d]: after the text [c] the cursor sees a boundary before the first code point of
+    [d] — decided inside [c] ([break_after] starts from the empty context), so it is what the
+    segmenter does whenever [c] starts at a boundary. [chain L]: every two neighbours of [L]
+    are [glued]. [is_cluster c]: [c] on its own is one cluster. *)
+Definition glued (c d : cluster) : bool :=
+  match d with b :: _ => break_after c b | [] => true end.
+Fixpoint chain (L : list cluster) : bool :=
+  match L with
+  | c :: ((d :: _) as R) => glued c d && chain R
+  | _ => true
+  end.
+Definition is_cluster (c : cluster) : bool := cll_eqb (segment c) [c].
+Definition stableb (L : list cluster) : bool := cll_eqb (segment (concat L)) L.
+
+(** ** [seam_safe]: the whitespace of a text can be deleted
+    no cluster of [s] mixes whitespace and non-whitespace, and wherever a whitespace cluster
+    stands between two clusters [c] and [d], [d] still starts a cluster when it follows [c]
+    directly ([glued c d]: decided inside [c], e.g. a third regional indicator after a
+    complete flag). For a whitespace-clean text this is exactly "the non-whitespace clusters
+    of the text are the clusters of the text without whitespace" ([seam_safe_iff]);
+    [seam_safe_cf] (categories of the two code points at each word boundary only) implies it. *)
+Fixpoint del_safe (t : list cluster) : bool :=
+  match t with
+  | c :: ((w :: r) as R) =>
+      (if negb (cl_ws c) && cl_ws w then match r with d :: _ => glued c d | [] => true end else true)
+      && del_safe R
+  | _ => true
+  end.
+Definition seam_safe (s : str) : bool := no_mixedb s && del_safe (segment s).
 
 (** ** string-level premise of the property, and the domain of the round-trip theorem *)
 Definition str_premise (f t : str) : bool :=
